@@ -2,6 +2,7 @@ SPECIFICATION Spec
 CONSTANTS
   Configs <- ConfigsBugSmall
   Budget = 1
+  Window <- WindowAll
   Bug = "OffByOne"
 INVARIANT TableAtDone
 INVARIANT TableStaysOK
